@@ -29,7 +29,9 @@ def run(tier, opts):
                 ck.violation(f"panic:{b}:{r['where']}", f"[{b}] proof-of-work code panicked: {r['where']}", r)
         recs2 = [r for r in recs if not r["ev"].endswith(".panic")]
         vf.write_ndjson(trace + ".v", recs2)
-        common.validate_trace(ck, "Trace_Pow", trace + ".v", f"[{b}] proof of work", f"trace:{b}")
+        ok = common.validate_trace(ck, "Trace_Pow", trace + ".v", f"[{b}] proof of work", f"trace:{b}")
+        if ok and (opts.get("selftest") or tier == "thorough") and b == builds[0]:
+            common.selftest_trace(ck, "Trace_Pow", trace + ".v", [("pow", "pre1"), ("pow", "pre2"), ("pow", "h2"), ("pow.result", "ok"), ("powcfg", "ok"), ("commit.end", "ok"), ("absorb", "msg")])
         n_pow = 0
         for r in recs2:
             if r["ev"] == "pow":
